@@ -5,7 +5,7 @@ from hypothesis import strategies as st
 import pytenet as ptn
 from core import Part, require, known_listed, Violation
 from lanczos_monitor import LanczosMonitor
-from gen_dyn import ham_and_state, complete_case, ham_desc, complete_manifold, build_ham, dense_ham, dense_state, sector_mask, gauge_edit
+from gen_dyn import ham_and_state, complete_case, ham_desc, complete_manifold, build_ham, dense_ham, dense_state, sector_mask, gauge_edit, quench_ham
 from gen_qn import build_mps
 from oracle_dense import mps_mask_violation
 
@@ -132,6 +132,16 @@ def check_dmrg(case, rec):
                 k = case['psi']['seed'] % L
                 psi.A[k] = 3.0 * psi.A[k]
                 rec.label('edit_between_calls')
+            if case.get('edit_H') and quench_ham(H, case['ham']):
+                # parameter quench on the same MPO object between the invocations: the second call must minimise the operator the
+                # object denotes now (all references are recomputed from the current tensors)
+                Hd = dense_ham(H)
+                scale = max(1.0, np.linalg.norm(Hd, 2))
+                E_gs, sdim = sector_ground_energy(Hd, psi.qd, L, total)
+                HA0 = [a.copy() for a in H.A]
+                vq = dense_state(psi)
+                E1 = float(np.vdot(vq, Hd @ vq).real / np.vdot(vq, vq).real)
+                rec.label('hamiltonian_changed_between_calls')
             one_call('second call', E1)
             rec.label('second_call')
     except Excluded:
@@ -150,6 +160,7 @@ def gen_dmrg(draw, tier):
     c['tol_split'] = draw(st.sampled_from([0, 0, 0, 1e-8, 1e-2]))
     c['second_call'] = draw(st.booleans())
     c['edit_between'] = draw(st.sampled_from([False, True, 'gauge']))
+    c['edit_H'] = draw(st.sampled_from([False, False, True]))
     return c
 
 
